@@ -256,7 +256,7 @@ func init() {
 	fw.Register(&fw.Check{
 		ID:    "C15",
 		Level: "model_checking",
-		Rule: "(also: 121 boundary characters in every short context and every pattern of <=2 characters repeated up to 1000 times) 4 tokenizers x every string up to the length bound over a 8..12-symbol alphabet (whitespace, comment opener, number, quotes, unknown character, multi-character symbol) x all 128 option sets, plus every sequence of <=3 (thorough 4) lexemes from a vocabulary with quoted strings whose content is a symbol, comment opener or blank; " +
+		Rule: "Also: the generic and the expression tokenizer configured with symbols of the user's own (one with an unregistered prefix, some starting with the sign) and a whitespace character the dispatch table does not start a whitespace on, every string up to length 4..6 over an 11-character alphabet. (also: 183 boundary characters (aliases modulo 2^8 and 2^16 and up to four characters of every Unicode general category among them) in every short context and every pattern of <=2 characters repeated up to 1000 times) 4 tokenizers x every string up to the length bound over a 8..12-symbol alphabet (whitespace, comment opener, number, quotes, unknown character, multi-character symbol) x all 128 option sets, plus every sequence of <=3 (thorough 4) lexemes from a vocabulary with quoted strings whose content is a symbol, comment opener or blank; " +
 			"oracle: stream(opts) == T(opts, stream(no options)) for a reference transformer that only drops/rewrites whole tokens; inputs whose option-free stream is itself broken are skipped and counted (C04); " +
 			"non-trivial = (input, option set) pairs on which T is not the identity",
 		Assume: []string{"C04 holds for the input (otherwise skipped)", "termination decided by the scanner step budget"},
